@@ -96,9 +96,9 @@ class Gen:
         s = self.bases(n)
         st = sc['strategy']
         k = r.randrange(10)
-        if sc['trim'][m - 1] == 'skipT' and (k < 7 or 'lead_T' in ctx):
+        if (sc['trim'][m - 1] == 'skipT' and (k < 7 or 'lead_T' in ctx)) or (m == 1 and ctx.get('lead_T_any_branch')):
             t = r.choice([0, 1, 2, 5, 12, n, max(0, n - 1)])
-            t = {'all': n, 'all_but_last': max(0, n - 1), 'one': 1}.get(ctx.get('lead_T'), t)
+            t = {'all': n, 'all_but_last': max(0, n - 1), 'one': 1, 'five': 5}.get(ctx.get('lead_T'), t)
             t = min(t, n)
             s = 'T' * t + s[t:]
         elif st == 'CHICTV' and m == 1 and k == 9 and n >= len(OLIGO):
@@ -164,7 +164,7 @@ class Gen:
     def ambiguous(self, st):
         """inputs that BOTH sub-demultiplexers of a DamID+transcriptome strategy accept (looked up in the real parser):
         DamAndT -> 11-mers X for R1[3:14] with X[0:10] a DamID2 barcode and X[3:11] a celseq2 barcode (each within the
-        parser's Hamming expansion); DamID2andT_3u4b3u4b -> DamID2_scattered_8bp barcodes that also resolve in CS2_scattered_8bp"""
+        parser's Hamming expansion); DamID2andT_3u4b3u4b -> raw 8-mers that resolve in DamID2_scattered_8bp AND in CS2_scattered_8bp"""
         if st not in self._amb:
             look = self.bp.getIndexCorrectedBarcodeAndHammingDistance
             found = []
@@ -175,8 +175,15 @@ class Gen:
                             if look(alias='DamID2', barcode=x[:10])[0] is not None and look(alias='celseq2', barcode=x[3:11])[0] is not None:
                                 found.append(x)
             elif st == 'DamID2andT_3u4b3u4b':
-                found = [b for b in sorted(self.bp.barcodes.get('DamID2_scattered_8bp', {}))
-                         if look(alias='CS2_scattered_8bp', barcode=b)[0] is not None]
+                # the two whitelists are disjoint: only a RAW barcode one mismatch away from an entry of each resolves in both
+                for d in sorted(self.bp.barcodes.get('DamID2_scattered_8bp', {})):
+                    for p in range(len(d)):
+                        for c in 'ACGT':
+                            x = d[:p] + c + d[p + 1:]
+                            if (look(alias='DamID2_scattered_8bp', barcode=x)[0] is not None
+                                    and look(alias='CS2_scattered_8bp', barcode=x)[0] is not None):
+                                found.append(x)
+                found = sorted(set(found))
             self._amb[st] = found
         return self._amb[st]
 
@@ -494,7 +501,9 @@ def main():
             extras = [('hdr', 'numeric_index'), ('hdr', 'three_dec'), ('hdr', 'no_index'), ('hdr', 'seven_field'), ('hdr', 'unknown_index'),
                       ('three_records', None), ('unlisted_count', None), ('probe_true_fixed', None), ('probe_true', None),
                       ('probe_false', None), ('probe_omit', None), ('empty_library', None), ('ambiguous', None), ('vasa_at_0', None), ('vasa_at_4', None),
-                      ('lead_T_all', None), ('lead_T_all_but_last', None), ('lead_T_one', None), ('lead_T_all_len1', None), ('lead_T_all_len2', None)]
+                      ('lead_T_all', None), ('lead_T_all_but_last', None), ('lead_T_one', None), ('lead_T_all_len1', None), ('lead_T_all_len2', None),
+                      # a pair BOTH sub-demultiplexers accept (reported Ambiguous, DamID layout) whose insert starts with T / is all T
+                      ('ambiguous_T_one', None), ('ambiguous_T_five', None), ('ambiguous_T_all', None)]
             for sc in scenarios:
                 st = sc['strategy']
                 if st not in strategies or (only and st not in only) or (inj and sc['wl'] not in INJECT):
@@ -515,16 +524,18 @@ def main():
                             continue
                         nm_force = other[0]
                     tid += 1
-                    if kind == 'ambiguous' and st not in ('DamAndT', 'DamID2andT_3u4b3u4b'):
+                    if kind.startswith('ambiguous') and st not in ('DamAndT', 'DamID2andT_3u4b3u4b'):
                         continue
                     if kind.startswith('vasa_at') and st != 'TCHIC':
                         continue
                     force = {'vasa_at': int(kind[-1])} if kind.startswith('vasa_at') else None
+                    if kind.startswith('ambiguous_T'):
+                        force = {'lead_T': kind.split('_')[-1], 'lead_T_any_branch': True}
                     if kind.startswith('lead_T'):
                         if 'skipT' not in sc['trim']:
                             continue
                         force = {'lead_T': kind[7:].split('_len')[0], 'ins_len': int(kind[-1]) if '_len' in kind else None}
-                    recs, nm, desc = gen.pair(sc, tid, hdr_kind=arg, nm_force=nm_force, long_enough=True, ambiguous=(kind == 'ambiguous'),
+                    recs, nm, desc = gen.pair(sc, tid, hdr_kind=arg, nm_force=nm_force, long_enough=True, ambiguous=kind.startswith('ambiguous'),
                                               force=force)
                     if kind == 'probe_true_fixed':
                         recs = probe_fix(st, recs)
